@@ -19,6 +19,41 @@ func filePosition(file io.ReadSeeker) (position int64) {
 	return
 }
 
+// readChunkSize bounds how much memory is allocated ahead of the data that is actually read.
+const readChunkSize = 1 << 20
+
+var ErrNegativeSize = fmt.Errorf("ammo size should not be negative")
+
+// readSized reads exactly size bytes from r. The announced size comes from the ammo file, so the buffer
+// grows with the data really present: a negative size is an error, a huge one ends with io.ErrUnexpectedEOF.
+func readSized(r io.Reader, size int) ([]byte, int, error) {
+	if size < 0 {
+		return nil, 0, ErrNegativeSize
+	}
+	if size <= readChunkSize {
+		buff := make([]byte, size)
+		n, err := io.ReadFull(r, buff)
+		return buff, n, err
+	}
+	buff := make([]byte, 0, readChunkSize)
+	for len(buff) < size {
+		next := size - len(buff)
+		if next > readChunkSize {
+			next = readChunkSize
+		}
+		buff = append(buff, make([]byte, next)...)
+		n, err := io.ReadFull(r, buff[len(buff)-next:])
+		if err != nil {
+			read := len(buff) - next + n
+			if err == io.EOF && read > 0 {
+				err = io.ErrUnexpectedEOF
+			}
+			return buff[:read], read, err
+		}
+	}
+	return buff, len(buff), nil
+}
+
 var (
 	ErrUnknown   = fmt.Errorf("unknown decoder faced")
 	ErrNoAmmo    = fmt.Errorf("no ammo in file")
